@@ -50,10 +50,10 @@ Fixpoint smap (f : ascii -> ascii) (s : string) : string :=
 Definition upper : string -> string := smap upper_ascii.
 Definition lower : string -> string := smap lower_ascii.
 
-(* f'{value}' for an int *)
+(* f'{int(value)}': the decimal text of the integer, whatever int-valued object was passed (after ce11434) *)
 Definition dec (v : Z) : string := NilZero.string_of_int (Z.to_int v).
 
-(* f'{cls.UNRECOGNIZED_PREFIX}_{value}' *)
+(* f'{cls.UNRECOGNIZED_PREFIX}_{int(value)}' *)
 Definition hidden_name (v : Z) : string := (unrecognized_prefix ++ hidden_sep ++ dec v)%string.
 
 (* member.name.startswith(cls.UNRECOGNIZED_PREFIX) — also IntEnum.is_unrecognized() *)
